@@ -3,6 +3,9 @@
 import json, os
 HOOK_COMMITS = ["1d323e3"]
 CHECKS = {
+ "C03": dict(cat="exploration", tech="runtime monitoring: differential monitor against the executable reference model + context relation + bounded-exhaustive subject x pattern grid",
+   text="About 110 000 seeded match / unpacking programs per quick run (traced subjects, all pattern forms, alternatives, guards, two subjects, used and ignored results; multi-assignment and for-argument unpacking over every iterable shape) are evaluated by the reference model and by the real implementation in three contexts; a grid of 19 subjects x 41 patterns x guards and x second patterns (about 13 000 cells after shape guards, all enumerated) prints the arm taken and its bindings.",
+   note="Trusted: reference model matcher and printer (0 residual disagreements on 19 000 calibration programs). Recorded defect shapes F-A2/A4/A5/A7/A8 are excluded from generation and replayed as witnesses.", ref="4 C03"),
  "C02": dict(cat="exploration", tech="runtime monitoring: differential monitor against the executable reference model + context relation + bounded-exhaustive binding layouts with sentinel arguments",
    text="About 120 000 seeded programs per quick run exercising every parameter form (positional, default with traced once-only evaluation, variadic, ignored, nested tuple unpacking with leading/trailing rest, map unpacking with `as`), call form (parenthesised, piped, packed, method with self), closures (copy capture of numbers, shared containers, factories, recursion) and generators (lazy, resumable, early return, yield inside loops and try/catch/finally; consumed by for/next/to_tuple/to_list) are evaluated by the reference model and by the real implementation in three surrounding contexts. All 2 000 binding layouts required<=3 x optional<=3 x variadic x supplied<=arity+2 x 6 call forms are enumerated with sentinel arguments so that any register mix-up changes the printed binding.",
    note="Trusted: reference model and printer (0 residual disagreements on 20 000 calibration programs). Generated function bodies never assign captured names (F-A3 is replayed as a witness instead).", ref="4 C02"),
